@@ -56,6 +56,12 @@ def _copy(d):
     return d
 
 
+class _Fallback:
+    """what a defaultdict input hands out for absent keys; converts to nothing sensible."""
+    def __repr__(self):
+        return "<fallback>"
+
+
 def mutations(d, rng, n):
     """n hostile variants of a valid document d: (label, new_doc, path, injected)."""
     out = []
@@ -85,8 +91,14 @@ def mutations(d, rng, n):
         elif kind < 0.92 and isinstance(target, list):
             new = {str(i): v for i, v in enumerate(target)}
             out.append(("list->dict", set_at(d, p, new), p, None))
-        elif kind < 0.96 and isinstance(target, dict):
+        elif kind < 0.94 and isinstance(target, dict):
             out.append(("dict->list", set_at(d, p, list(target.values())), p, None))
+        elif kind < 0.97 and isinstance(target, dict):
+            # the same mapping (all its keys kept) as an object with __missing__: subscripting it with an absent
+            # OPTIONAL key would yield a fallback value and store it; required keys are all present, so reading them
+            # by subscription (which the library legitimately does for TypedDict / NamedTuple-as-dict) is harmless
+            import collections
+            out.append(("defaultdict", set_at(d, p, collections.defaultdict(_Fallback, dict(target))), p, None))
         else:
             j = rng.choice(pool)
             out.append(("replace", set_at(d, p, j), p, j))
